@@ -238,6 +238,23 @@ pub fn gen(seed: u64, count: usize, tier: &str, params: &Params) -> Vec<Value> {
                 let ty = if cells > 120 && (ty == "opt_u8" || ty == "opt_i8") { "opt_i16" } else { ty };
                 cases.push(json!({"ev": "remove_nan", "ty": ty, "lane": lane, "stride": stride, "off": rng.below(3)}));
             }
+            "remove_nan" if (ty == "f32" || ty == "f64") && rng.chance(1, 4) => {
+                // the only kept value of the lane is -inf (the cell at address 4 holds identity 5 = NEG_INFINITY), or +inf (address 1)
+                let off = rng.below(3) as i64;
+                let n = rng.range(5, 9);
+                let target = if rng.chance(1, 2) { 4 } else { 1 };
+                let lane: Vec<i64> = (0..n).map(|t| if off + 2 + t == target + 2 { 1 } else { 0 }).collect();
+                cases.push(json!({"ev": "remove_nan", "ty": ty, "lane": lane, "stride": 1, "off": off}));
+            }
+            "remove_nan" if rng.chance(1, 8) => {
+                // long lanes (33..130) whose missing values sit only in the last few positions (block-wise scans skip tails)
+                let n = rng.range(33, 130);
+                let tail = rng.range(1, 6);
+                let lane: Vec<i64> = (0..n).map(|k| if k >= n - tail && rng.chance(2, 3) { 0 } else { 1 }).collect();
+                let stride = *rng.pick(&[1i64, 1, 2, -1]);
+                let ty = if ty == "opt_u8" || ty == "opt_i8" { "opt_i16" } else { ty };
+                cases.push(json!({"ev": "remove_nan", "ty": ty, "lane": lane, "stride": stride, "off": rng.below(3)}));
+            }
             "remove_nan" => {
                 let n = rng.range(0, maxlen);
                 let lane: Vec<i64> = (0..n).map(|_| miss(&mut rng)).collect();
